@@ -1106,6 +1106,18 @@ func scBPop(n *nodis.Nodis, r *rand.Rand, rounds int) string {
 		return fmt.Sprintf("FAIL BRPOP with a timeout of 0.25 s and no push returned after %v", d)
 	}
 	tick()
+	// (b') inside MULTI/EXEC a blocking pop does not wait: the transaction would hold up everybody
+	t0 = time.Now()
+	c.do("MULTI")
+	c.do("BLPOP", "empty1", "0")
+	g, err = c.do("EXEC")
+	if err != nil || len(g) != 2 || g[0].kind != '*' || g[1].kind != 'n' {
+		return fmt.Sprintf("FAIL MULTI; BLPOP empty1 0; EXEC replied %v %v, not an array holding a null array", g, err)
+	}
+	if d := time.Since(t0); d > time.Second {
+		return fmt.Sprintf("FAIL MULTI; BLPOP empty1 0; EXEC took %v", d)
+	}
+	tick()
 	// (c) timeout 0 waits until a push arrives; BRPOP woken by RPUSH k x y gets the tail
 	for round := 0; round < rounds; round++ {
 		key := fmt.Sprintf("bz%d", round)
@@ -1241,12 +1253,17 @@ func attackPayloads(r *rand.Rand) [][]byte {
 		"ZINTERSTORE", "ZSCAN", "SCAN", "KEYS", "EXPIRE", "EXPIREAT", "PEXPIRE", "TTL", "RENAME", "BLPOP", "BRPOP", "GEOADD", "GEORADIUS", "GEORADIUSBYMEMBER", "GEODIST", "GEOHASH", "GEOPOS",
 		"MULTI", "EXEC", "DISCARD", "WATCH", "UNWATCH", "CLIENT", "CONFIG", "INFO", "ECHO", "PING", "QUIT", "DBSIZE", "TYPE", "DEL", "EXISTS", "MSET", "MGET", "APPEND", "STRLEN",
 		"SAVE", "SELECT", "AUTH", "COMMAND", "NOSUCH", ""}
-	operands := []string{"", "k", "ak", "0", "-1", "1", "9223372036854775807", "-9223372036854775808", "99999999999999999999", "1e400", "nan", "inf", "-inf", "0.5", "abc", "(", "[", "+", "-",
+	operands := []string{"", "k", "ak", "sk", "zk", "hk", "sk", "zk", "hk", "100000000000", "-100000000000", "4294967296", "-4294967296", "0", "-1", "1", "9223372036854775807", "-9223372036854775808", "99999999999999999999", "1e400", "nan", "inf", "-inf", "0.5", "abc", "(", "[", "+", "-",
 		"NX", "XX", "GT", "LT", "CH", "INCR", "COUNT", "MATCH", "LIMIT", "WITHSCORES", "WEIGHTS", "AGGREGATE", "BEFORE", "AFTER", "EX", "PX", "KEEPTTL", "GET", "\x00", "\r\n", strings.Repeat("x", 5000), "*", "[a", "\\"}
 	for _, name := range names {
 		for arity := 0; arity < 7; arity++ {
 			args := [][]byte{[]byte(name)}
 			for j := 0; j < arity; j++ {
+				if j == 0 && r.Intn(10) < 7 {
+					// most commands take a key first: one of each type, so that the type-specific code is reached
+					args = append(args, []byte([]string{"k", "ak", "sk", "zk", "hk", "nokey"}[r.Intn(6)]))
+					continue
+				}
 				args = append(args, []byte(operands[r.Intn(len(operands))]))
 			}
 			p = append(p, encodeCommand(args))
@@ -1270,6 +1287,9 @@ func scHostile(n *nodis.Nodis, r *rand.Rand, rounds int) string {
 	// keys of several types for the wrong-type attacks
 	canary.do("SET", "k", "v")
 	canary.do("RPUSH", "ak", "a", "b")
+	canary.do("SADD", "sk", "a", "b", "c")
+	canary.do("ZADD", "zk", "1", "a", "2", "b")
+	canary.do("HSET", "hk", "f", "1", "g", "x")
 	check := func(i int, what string) string {
 		t0 := time.Now()
 		v := fmt.Sprintf("v%d", i)
